@@ -310,15 +310,21 @@ func C10PipeSenders() {
 // C10ConnSenders: the in-memory pipe transport (ConnStream over net.Pipe, whose real, unbuffered
 // implementation is interpreted): two senders on one end, a handler with room on the other: both
 // frames arrive intact, each once; one of the frames is larger than what the reader asks for at once.
-func C10ConnSenders() {
+func C10ConnSenders() { c10ConnSenders(300) }
+
+// C10ConnSendersLarge: the same with a frame larger than any buffer of the sending path (5000 bytes):
+// what the goroutines sharing a connection rely on (one message = one Write) holds at every size.
+func C10ConnSendersLarge() { c10ConnSenders(5000) }
+
+func c10ConnSenders(size int) {
 	a, b := gonet.Pipe()
 	e1 := ConnEndPoint(a)
 	got := make(chan *Message, 4)
 	e2 := EndPointFinalizer(ConnStream(b), func(e EndPoint) {
 		e.MakeHandler(func(h *Header) (bool, bool) { return true, true }, got, nil)
 	})
-	big := make([]byte, 300)
-	big[0], big[299] = sym.U8("first"), sym.U8("last")
+	big := make([]byte, size)
+	big[0], big[size-1] = sym.U8("first"), sym.U8("last")
 	m1 := NewMessage(NewHeader(Call, sym.U32("s1"), 1, 1, 1), big)
 	m2 := NewMessage(NewHeader(Call, sym.U32("s2"), 1, 1, 2), []byte{sym.U8("small")})
 	done := make(chan bool, 2)
